@@ -7,6 +7,8 @@ package c46
 // AbMsg3 proto3-shaped (value scalars, "proto3" tag option).
 
 import (
+	gen2016 "google.golang.org/protobuf/internal/testprotos/legacy/proto2_20160225_2fc053c5"
+	gen2019 "google.golang.org/protobuf/internal/testprotos/legacy/proto2_20190205_c823c79e"
 	"google.golang.org/protobuf/runtime/protoiface"
 	"google.golang.org/protobuf/runtime/protoimpl"
 )
@@ -264,14 +266,18 @@ var (
 		Name: abPkg + ".ext_pack_fixed", Tag: "fixed32,204,rep,packed,name=ext_pack_fixed"}
 	abExtRepString = &protoimpl.ExtensionInfo{ExtendedType: (*AbMsg2)(nil), ExtensionType: ([]string)(nil), Field: 205,
 		Name: abPkg + ".ext_rep_string", Tag: "bytes,205,rep,name=ext_rep_string"}
-	abExtMsg = &protoimpl.ExtensionInfo{ExtendedType: (*AbMsg2)(nil), ExtensionType: (*AbMsg2)(nil), Field: 1000,
+	// message-typed extensions use generated legacy types: the conversion of a legacy declaration
+	// finds a message descriptor only through the type's Descriptor method
+	abExtMsg = &protoimpl.ExtensionInfo{ExtendedType: (*AbMsg2)(nil), ExtensionType: (*gen2016.Message_ChildMessage)(nil), Field: 1000,
 		Name: abPkg + ".ext_msg", Tag: "bytes,1000,opt,name=ext_msg"}
-	abExtRepLeaf = &protoimpl.ExtensionInfo{ExtendedType: (*AbMsg2)(nil), ExtensionType: ([]*AbLeaf)(nil), Field: 1001,
-		Name: abPkg + ".ext_rep_leaf", Tag: "bytes,1001,rep,name=ext_rep_leaf"}
+	abExtRepLeaf = &protoimpl.ExtensionInfo{ExtendedType: (*AbMsg2)(nil), ExtensionType: ([]*gen2019.SiblingMessage)(nil), Field: 1001,
+		Name: abPkg + ".ext_rep_sibling", Tag: "bytes,1001,rep,name=ext_rep_sibling"}
+	abExtEnum = &protoimpl.ExtensionInfo{ExtendedType: (*AbMsg2)(nil), ExtensionType: (*gen2019.SiblingEnum)(nil), Field: 1002,
+		Name: abPkg + ".ext_enum", Tag: "varint,1002,opt,name=ext_enum,enum=google.golang.org.proto2_20190205.SiblingEnum,def=10"}
 	abExtDouble = &protoimpl.ExtensionInfo{ExtendedType: (*AbMsg2)(nil), ExtensionType: (*float64)(nil), Field: 536870911,
 		Name: abPkg + ".ext_double", Tag: "fixed64,536870911,opt,name=ext_double"}
 	abExtBool = &protoimpl.ExtensionInfo{ExtendedType: (*AbMsg2)(nil), ExtensionType: (*bool)(nil), Field: 299,
 		Name: abPkg + ".ext_bool", Tag: "varint,299,opt,name=ext_bool,def=1"}
 
-	abExts = []*protoimpl.ExtensionInfo{abExtInt32, abExtString, abExtBytes, abExtRepSint, abExtPackFixed, abExtRepString, abExtMsg, abExtRepLeaf, abExtDouble, abExtBool}
+	abExts = []*protoimpl.ExtensionInfo{abExtInt32, abExtString, abExtBytes, abExtRepSint, abExtPackFixed, abExtRepString, abExtMsg, abExtRepLeaf, abExtEnum, abExtDouble, abExtBool}
 )
